@@ -140,6 +140,20 @@ func (lifeComp) Exec(op string) (string, string, string, bool) {
 	}
 	g1 := quiesce()
 	grow := float64(g1-g0) / float64(n)
+	if closer == "refused" {
+		// whatever a finished connection left behind (a slot, a token, a table entry) must not add up: after n
+		// refused connections the session still serves an ordinary one
+		done := make(chan error, 1)
+		go func() { done <- oneConn(rig, "app", 98) }()
+		select {
+		case err := <-done:
+			if err != nil {
+				return fmt.Sprintf("grow=%d spin=false after=stuck", int(grow+0.5)), fmt.Sprintf("after %d refused logical connections an ordinary one on the same session is not served: %v", n+3, err), carrier + " " + closer + " " + ending, true
+			}
+		case <-time.After(12 * time.Second):
+			return fmt.Sprintf("grow=%d spin=false after=stuck", int(grow+0.5)), fmt.Sprintf("after %d refused logical connections an ordinary one on the same session is not served within 12s", n+3), carrier + " " + closer + " " + ending, true
+		}
+	}
 	spin := false
 	switch ending {
 	case "cut":
@@ -233,6 +247,7 @@ func (lifeComp) Gen(r *Rand, tier string, emit func(string)) {
 		emit(c + " 25 target none")
 	}
 	emit("tcp 25 refused none")
+	emit("tcp 300 refused none")
 	emit("ws 25 refused none")
 	emit("tcp 30 badpeer hold")
 	emit("tcp 12 badpeer close")
